@@ -146,10 +146,49 @@ def rotate_r(env, a, how, tag="rot", around=True):
             x = uo(prm)[0]
             return (1 - x * x) / (1 + x * x), 2 * x / (1 + x * x)
         pv = SH._merge_pvars(pv, [("t", 1)])
+    elif how == "angle[t]":
+        # from_angles with the angle w0 + w1*t; after the parameter rows exist, bind_rows() ties one input pair
+        # (c_i, s_i) per row to cos/sin of that row's angle; the replay solves w0 (and w1 for two rows) from them
+        import math
+        w = SH.Aff(env, tag + "w", 1, "t")
+        cell = {"base": w.base, "slope": w.slope}
+
+        def ang(t):
+            return cell["base"] + cell["slope"] * t
+
+        dom = tp.domains.Rotate.from_angles(a.dom, ang, rotate_around=ra)
+        wo = w.oracle()
+        if env.symbolic:
+            def cs(prm):
+                return L.cossin(wo(prm)[0])
+        else:
+            def cs(prm):
+                x = float(cell["base"]) + float(cell["slope"]) * float(prm["t"][0])
+                return math.cos(x), math.sin(x)
+
+        def bind_rows(rows):
+            k = len(rows)
+            e = SH.elems(env, env.tensor(tag + "cs", (k, 2)))
+            if env.symbolic:
+                for i, prm in enumerate(rows):
+                    cw, sw = cs(prm)
+                    env.assume(L.And(L.eq(e[2 * i], cw), L.eq(e[2 * i + 1], sw)))
+                return
+            angs = [math.atan2(e[2 * i + 1], e[2 * i]) for i in range(k)]
+            ts = [float(prm["t"][0]) for prm in rows]
+            slope = float(cell["slope"])
+            if k >= 2 and ts[1] != ts[0]:
+                slope = (angs[1] - angs[0]) / (ts[1] - ts[0])
+            cell["slope"] = torch.tensor(slope)
+            cell["base"] = torch.tensor(angs[0] - slope * ts[0])
+        pv = SH._merge_pvars(pv, [("t", 1)])
     else:
         raise ValueError(how)
-    return SH.Sh("Rotate<%s>(%s)" % (how, a.name), dom, O.ORotate2D(a.oset, cs, around_o), pv, a.space_vars,
-                 closed_form=a.closed_form)
+    sh = SH.Sh("Rotate<%s>(%s)" % (how, a.name), dom, O.ORotate2D(a.oset, cs, around_o), pv, a.space_vars,
+               closed_form=a.closed_form)
+    if how == "angle[t]":
+        sh.bind_rows = bind_rows
+    return sh
 
 
 # --------------------------------------------------------------------------
@@ -228,6 +267,8 @@ def encloses_case(name, mk, info, k, mode="ite", boundary=False, **kw):
         d = _dim(sh)
         P, rows = SH.params(env, sh.pvars, k)
         L = env.L
+        if hasattr(sh, "bind_rows"):
+            sh.bind_rows(rows)
         for prm in rows:
             env.assume(sh.oset.positive(prm, L))
         dom = sh.dom.boundary if boundary else sh.dom
@@ -523,24 +564,28 @@ def lhs_case(name, mk, info, n):
 
 
 def _catalog(tier):
-    """the shape catalogue; its from_angles rotations are replaced by rotations whose counterexamples replay"""
+    """the shape catalogue; its from_angles rotations are replaced by rotations whose counterexamples replay.
+    Rotated polygons: the inner polygon is concrete (ConcShapeEnv: non-axis-aligned), the rotation, its centre and the
+    query point symbolic -- with all 13 reals symbolic the solver does not decide these queries within the budgets;
+    the composition layer itself is decided for ANY inner set and box by the abstract/rotate cases."""
     out = []
     for name, mk, info in SH.catalog(tier):
         if name.startswith("Rotate"):
             continue
         out.append((name, mk, info))
-    kinds = ("Circle",) + (("Parallelogram", "Triangle") if tier == "thorough" else ())
-    for kind in kinds:
-        for how in ("matrix", "angle", "matrix[t]"):
-            if how != "matrix" and kind == "Triangle":
-                continue
-            out.append(("Rotate<%s>(%s)" % (how, kind),
-                        (lambda env, kind=kind, how=how: rotate_r(env, SH.PRIMS[kind](env, tag="A"), how)),
-                        dict(fam="transform", rot=how, dep=(how == "matrix[t]"))))
+    for how in ("matrix", "angle", "angle[t]"):
+        out.append(("Rotate<%s>(Circle)" % how, (lambda env, how=how: rotate_r(env, SH.circle(env, tag="A"), how)),
+                    dict(fam="transform", rot=how, dep=(how == "angle[t]"))))
     if tier == "thorough":
-        out.append(("Rotate<matrix>((Circle&Parallelogram))",
-                    lambda env: rotate_r(env, SH.inter(SH.circle(env, tag="A"), SH.parallelogram(env, tag="B")), "matrix"),
-                    dict(fam="nested", rot="matrix")))
+        for kind in ("Parallelogram", "Triangle"):
+            for how in ("matrix",) + (("angle[t]",) if kind == "Parallelogram" else ()):
+                out.append(("Rotate<%s>(%s*)" % (how, kind),
+                            (lambda env, kind=kind, how=how: rotate_r(env, SH.PRIMS[kind](SH.ConcShapeEnv(env), tag="A"), how)),
+                            dict(fam="transform", rot=how, dep=(how == "angle[t]"), concrete_inner=True)))
+        out.append(("Rotate<matrix>((Circle&Parallelogram)*)",
+                    lambda env: rotate_r(env, SH.inter(SH.circle(SH.ConcShapeEnv(env), tag="A"),
+                                                       SH.parallelogram(SH.ConcShapeEnv(env), tag="B")), "matrix"),
+                    dict(fam="nested", rot="matrix", concrete_inner=True)))
     return out
 
 
@@ -557,6 +602,8 @@ def cases(tier):
         ks = ((1, 2) if dep else (0, 2)) if not quick else ((2,) if dep else (0,))
         if dep and not quick:
             ks = (1, 2)
+        if info.get("rot") == "angle[t]" and quick:
+            ks = (1,)  # quotients of the rational rotation x polygon: k=2 is covered with Circle
         for k in ks:
             cs.append(encloses_case(name, mk, info, k, mode="ite"))
         if prim and poly and (not quick or not dep):
@@ -594,13 +641,13 @@ def cases(tier):
     cs.append(set_box_case(True))
     reps_q = ("Interval", "Circle", "Parallelogram", "(Circle+Parallelogram)", "(Interval-Interval)", "(Circle*Interval)",
               "Translate(Circle)", "Rotate<matrix>(Circle)")
-    reps_t = reps_q + ("Triangle", "Sphere", "(Circle-Parallelogram)", "(Circle&Parallelogram)", "Rotate<matrix>(Parallelogram)",
+    reps_t = reps_q + ("Triangle", "Sphere", "(Circle-Parallelogram)", "(Circle&Parallelogram)", "Rotate<matrix>(Parallelogram*)",
                        "Translate(Parallelogram)", "(Interval+Interval)", "(Interval&Interval)", "(Parallelogram*Interval)")
     for name, mk, info in cat:
         if name in (reps_q if quick else reps_t) and not _is_dep(info, name):
             cs.append(normalize_case(name, mk, info))
     lhs_q = ("Interval", "Circle", "Parallelogram", "(Circle*Interval)")
-    lhs_t = lhs_q + ("Triangle", "(Circle+Parallelogram)", "Translate(Circle)", "Rotate<matrix>(Parallelogram)")
+    lhs_t = lhs_q + ("Triangle", "(Circle+Parallelogram)", "Translate(Circle)", "Rotate<matrix>(Circle)")
     for name, mk, info in cat:
         if name in (lhs_q if quick else lhs_t):
             cs.append(lhs_case(name, mk, info, 2))
